@@ -222,6 +222,15 @@ def run_cases(chk, tier):
         run_case(chk, r, lpts, kind, shapes, how, index_kind, clash=(k % 2 == 0), tag="grid")
         if k < 4:
             chk.sample(dict(how=how, left_points=lpts, kind=kind, right_shapes=shapes, index_kind=index_kind), cap=6)
+    # two overlapping rectangles, every pattern of {in both, in the first only, in the second only, in neither} over 4 (thorough: 5) left
+    # rows: duplicates and gaps in the matched positions in every combination
+    import itertools
+    rects = [[[0, 0, 10, 0, 10, 10, 0, 10, 0, 0]], [[4, 4, 14, 4, 14, 14, 4, 14, 4, 4]]]
+    where = {"both": lambda i: [5 + i, 6], "first": lambda i: [1, 1 + i], "second": lambda i: [12, 11 + (i % 3)], "neither": lambda i: [20 + i, 20]}
+    for k, pat in enumerate(itertools.product(("both", "first", "second", "neither"), repeat=4 if tier == "quick" else 5)):
+        lpts = [where[w](i) for i, w in enumerate(pat)]
+        run_case(chk, r, lpts, "polygon", rects, ("inner", "inner", "left", "right")[k % 4], ("default", "string")[k % 2], clash=False, tag="patterns")
+    chk.count("match-patterns")
     # name clash with the generated index columns must be rejected
     from spatialpandas import GeoDataFrame, sjoin
     l = GeoDataFrame({"index_right": [1.0], "geometry": geo.make_array("point", [[0, 0]], "float64")})
